@@ -99,6 +99,7 @@ pub fn probe_trace(tag: u8) -> Vec<Packet> {
         conns: vec![mk(0, Script::None, 22), mk(1, Script::Http1 { req, resp, resp_body: b"hello".to_vec() }, 80), mk(2, Script::Http2 { req: h2req, resp: h2resp }, 8080), mk(3, Script::Tls { hello: tls::simple_hello(), after: vec![] }, 443)],
         schedule: vec![],
         link: Link::Ether,
+        macs: 0,
     };
     // connection after connection (no interleaving needed for a probe)
     t.per_conn().into_iter().flatten().collect()
